@@ -111,6 +111,10 @@ func mkHandler(id int, b refmodel.Behaviour, log *[]refmodel.Event) rux.HandlerF
 			case refmodel.SRedispAbort:
 				c.Req.URL.Path = "/inner"
 				c.Router().HandleContext(c)
+			case refmodel.SReplaceChain:
+				c.SetHandlers(rux.HandlersChain{func(*rux.Context) {
+					*log = append(*log, refmodel.Event{Kind: "enter", H: 700 + id})
+				}})
 			case refmodel.SAddErr:
 				c.AddError(errors.New("recorded"))
 			case refmodel.SWrite:
@@ -270,6 +274,27 @@ func runChain(sh chainShape, table map[byte]refmodel.Behaviour) (obs chainObs, b
 		log = log[:0]
 		w := httptest.NewRecorder()
 		obs.pv = try(func() { r.ServeHTTP(w, httptest.NewRequest("GET", "/no/such/route", nil)) })
+		obs.events, obs.status, obs.body = log, w.Code, w.Body.String()
+		return
+	}
+	if sh.Via == "notallowed" || sh.Via == "notallowed-options" {
+		// the chain is: n-1 global middleware around the built-in not-allowed responder (the path exists for GET only)
+		r = rux.New(rux.HandleMethodNotAllowed)
+		regPanic = try(func() {
+			for i := 0; i < n-1; i++ {
+				r.Use(hs[i])
+			}
+			r.GET("/only-get", func(*rux.Context) {})
+		})
+		if regPanic != nil {
+			return
+		}
+		m := "POST"
+		if sh.Via == "notallowed-options" {
+			m = "OPTIONS"
+		}
+		w := httptest.NewRecorder()
+		obs.pv = try(func() { r.ServeHTTP(w, httptest.NewRequest(m, "/only-get", nil)) })
 		obs.events, obs.status, obs.body = log, w.Code, w.Body.String()
 		return
 	}
